@@ -45,6 +45,7 @@ type HistGen struct {
 	names []string
 	dist  map[string]int
 	crits map[string]int
+	cur   *collState // collection the query under construction targets
 }
 
 type collState struct {
@@ -67,7 +68,12 @@ func NewHistGen(g *Gen, cfg HistCfg) *HistGen {
 
 // ---- value generation for documents ----
 
-func (h *HistGen) smallInt() interface{} { return int64(h.g.Intn(8)) }
+func (h *HistGen) smallInt() interface{} {
+	if h.g.Chance(0.12) {
+		return int64(-1 - h.g.Intn(4))
+	}
+	return int64(h.g.Intn(8))
+}
 
 // a field value: biased to small comparable numbers (so that criteria select non-trivially), with the
 // whole boundary pool and nested values behind it
@@ -81,6 +87,9 @@ func (h *HistGen) fieldValue() interface{} {
 	case 8:
 		return float64(g.Intn(16)) / 2
 	case 9:
+		if g.Chance(0.3) {
+			return float64(-1 - g.Intn(3))
+		}
 		return uint64(g.Intn(8))
 	case 10:
 		return nil
@@ -166,6 +175,14 @@ func (h *HistGen) doc(withId string) map[string]interface{} {
 	if g.Chance(0.15) {
 		m["ab"] = h.fieldValue()
 	}
+	if g.Chance(0.45) {
+		n := g.Intn(4)
+		a := make([]interface{}, n)
+		for i := range a {
+			a[i] = int64(g.Intn(5))
+		}
+		m["arr"] = a
+	}
 	if withId != "" {
 		m["_id"] = withId
 	}
@@ -179,6 +196,9 @@ func (h *HistGen) doc(withId string) map[string]interface{} {
 
 func (h *HistGen) literal() interface{} {
 	g := h.g
+	if g.Chance(0.1) {
+		return pickOf(g, []interface{}{int(-1), int64(-3), int8(-2), float64(-1.5), float32(-1)})
+	}
 	switch g.Intn(16) {
 	case 0, 1, 2:
 		return int(g.Intn(8))
@@ -219,7 +239,10 @@ func (h *HistGen) operand() Operand {
 }
 
 func (h *HistGen) critField() string {
-	return pickOf(h.g, []string{"a", "a", "a", "b", "b", "x", "xy", "n.a", "n", "s", "ab", "zz", "_id", "t"})
+	if h.cur != nil && len(h.cur.indexes) > 0 && h.g.Chance(0.5) {
+		return pickOf(h.g, h.cur.indexes) // a field that has an index in the collection being queried
+	}
+	return pickOf(h.g, []string{"a", "a", "a", "b", "b", "x", "xy", "n.a", "n", "s", "ab", "zz", "_id", "t", "arr"})
 }
 
 var likePats = []string{"a", "^a", "a$", "^a.*b$", ".*", "^$", "b.*", "^ab", "a.*c", "x"}
@@ -258,6 +281,14 @@ func (h *HistGen) crit(depth int) *Crit {
 		}
 		return &Crit{Kind: "in", Field: f, Vals: vs}
 	case 10:
+		if g.Chance(0.7) {
+			n := 1 + g.Intn(3)
+			vs := make([]Operand, n)
+			for i := range vs {
+				vs[i] = Operand{Lit: pickOf(g, []interface{}{int(g.Intn(6)), int64(g.Intn(6)), float64(g.Intn(6)), uint8(g.Intn(6))})}
+			}
+			return &Crit{Kind: "contains", Field: "arr", Vals: vs}
+		}
 		n := g.Intn(3)
 		vs := make([]Operand, n)
 		for i := range vs {
@@ -285,7 +316,11 @@ func (h *HistGen) sortOpts() []SortOpt {
 	}
 	opts := make([]SortOpt, 0, n+1)
 	for i := 0; i <= n; i++ {
-		opts = append(opts, SortOpt{pickOf(g, []string{"a", "a", "b", "x", "xy", "n.a", "s", "_id", "zz", "t"}), pickOf(g, []int{-2, -1, 0, 1, 2})})
+		f := pickOf(g, []string{"a", "a", "b", "x", "xy", "n.a", "s", "_id", "zz", "t"})
+		if h.cur != nil && len(h.cur.indexes) > 0 && g.Chance(0.4) {
+			f = pickOf(g, h.cur.indexes)
+		}
+		opts = append(opts, SortOpt{f, pickOf(g, []int{-2, -1, 0, 1, 2})})
 	}
 	return opts
 }
@@ -293,6 +328,8 @@ func (h *HistGen) sortOpts() []SortOpt {
 func (h *HistGen) query(coll string, allowWindow, allowSort bool) QSpec {
 	g := h.g
 	q := QSpec{Coll: coll}
+	h.cur = h.colls[coll]
+	defer func() { h.cur = nil }()
 	if g.Chance(0.75) {
 		c := h.crit(3)
 		c.countOps(h.crits)
@@ -423,6 +460,69 @@ func (h *HistGen) next() *Op {
 			return &Op{Kind: "Close"}
 		}
 		return &Op{Kind: "Reopen"}
+	}
+	if h.cfg.Focus == "index" && g.Chance(0.10) {
+		return &Op{Kind: "CreateIndex", Coll: c, Field: pickOf(g, []string{"a", "a", "b", "x", "xy", "n", "n.a", "s", "t"})}
+	}
+	if h.cfg.Focus == "sort" && g.Chance(0.25) {
+		q := h.query(c, true, true)
+		if _, _, _, _ = q.effective(); true {
+			hasSort := false
+			for _, st := range q.Steps {
+				if st.Kind == "sort" {
+					hasSort = true
+				}
+			}
+			if !hasSort {
+				q.Steps = append(q.Steps, QStep{Kind: "sort", Opts: h.sortOpts()})
+			}
+		}
+		if g.Chance(0.3) {
+			return &Op{Kind: "ForEach", Q: q, Stop: pickOf(g, []int{-1, 1, 2, 3}), Mode: resultMode(q, true)}
+		}
+		return &Op{Kind: "FindAll", Q: q, Mode: resultMode(q, false)}
+	}
+	if h.cfg.Focus == "bulk" && g.Chance(0.25) {
+		q := h.query(c, true, true)
+		switch g.Intn(3) {
+		case 0:
+			return &Op{Kind: "Delete", Q: q}
+		case 1:
+			return &Op{Kind: "UpdateFunc", Q: q, U: h.updater()}
+		default:
+			return &Op{Kind: "Update", Q: q, KVs: h.updateMap()}
+		}
+	}
+	if h.cfg.Focus == "ids" && g.Chance(0.25) {
+		switch g.Intn(4) {
+		case 0:
+			return &Op{Kind: "FindById", Coll: h.pickColl(), Id: pickOf(g, idPool)}
+		case 1:
+			return &Op{Kind: "UpdateById", Coll: c, Id: h.pickId(c), U: Updater{Kind: "funset", Field: "_id", Val: pickOf(g, append([]interface{}{pickOf(g, idPool)}, badIds...))}}
+		case 2:
+			docs := []map[string]interface{}{h.doc(pickOf(g, idPool)), h.doc(pickOf(g, idPool))}
+			return &Op{Kind: "Insert", Coll: h.pickColl(), Docs: docs}
+		default:
+			return &Op{Kind: "Save", Coll: c, Docs: []map[string]interface{}{h.doc(pickOf(g, idPool))}}
+		}
+	}
+	if h.cfg.Focus == "catalog" && g.Chance(0.3) {
+		switch g.Intn(7) {
+		case 0:
+			return &Op{Kind: "CreateCollection", Coll: h.pickColl()}
+		case 1:
+			return &Op{Kind: "DropCollection", Coll: h.pickColl()}
+		case 2:
+			return &Op{Kind: "ListCollections"}
+		case 3:
+			return &Op{Kind: "CreateIndex", Coll: h.pickColl(), Field: pickOf(g, []string{"x", "xy", "n", "n.a", "a"})}
+		case 4:
+			return &Op{Kind: "DropIndex", Coll: h.pickColl(), Field: pickOf(g, []string{"x", "xy", "n", "n.a", "a"})}
+		case 5:
+			return &Op{Kind: "ListIndexes", Coll: h.pickColl()}
+		default:
+			return &Op{Kind: "HasIndex", Coll: h.pickColl(), Field: pickOf(g, []string{"x", "xy", "n", "n.a", "a"})}
+		}
 	}
 	r := g.Intn(100)
 	switch {
@@ -575,9 +675,10 @@ type StepRec struct {
 }
 
 type HistResult struct {
-	Steps   []StepRec
-	Backend string
-	Err     string
+	Steps       []StepRec
+	Backend     string
+	Err         string
+	OracleFails []string
 }
 
 func newEnv(backend string) (*Env, error) {
@@ -630,6 +731,11 @@ func runHistory(g *Gen, cfg HistCfg, backend string, dumpEvery bool) (*HistResul
 		h.dist[op.Kind]++
 		r := op.exec(env)
 		h.observe(op, r, env)
+		if op.Kind == "FindAll" && !env.closed {
+			for _, msg := range readOracles(env.db, op.Q, false) {
+				res.OracleFails = append(res.OracleFails, fmt.Sprintf("%s; query %s (history seed step %d on %s)", msg, clip(op.Q.term(), 500), i, backend))
+			}
+		}
 		var dump T
 		if (dumpEvery || isWrite(op.Kind) || i == n-1) && !env.closed {
 			dump, err = dumpStore(env.st.inner)
